@@ -27,21 +27,15 @@ impl From<&bool> for packed::Bool {
 
 impl<'r> From<packed::BoolReader<'r>> for bool {
     fn from(value: packed::BoolReader<'r>) -> bool {
-        match value.as_slice()[0] {
-            0 => false,
-            1 => true,
-            _ => unreachable!(),
-        }
+        // the byte comes from untrusted peers as well: any non-zero value reads as true
+        value.as_slice()[0] != 0
     }
 }
 impl_conversion_for_entity_from!(bool, Bool);
 impl<'r> Unpack<bool> for packed::BoolReader<'r> {
     fn unpack(&self) -> bool {
-        match self.as_slice()[0] {
-            0 => false,
-            1 => true,
-            _ => unreachable!(),
-        }
+        // the byte comes from untrusted peers as well: any non-zero value reads as true
+        self.as_slice()[0] != 0
     }
 }
 impl_conversion_for_entity_unpack!(bool, Bool);
